@@ -1,7 +1,6 @@
 //! C06 Clients and broker agree on the protocol under every schedule.
 
 use crate::driver::*;
-use crate::interp::*;
 use crate::net::*;
 use crate::prog::*;
 use vcommon::{fingerprint, CheckDef, ClassPlan, Outcome, PassInfo, Tier};
@@ -41,7 +40,9 @@ fn plan(t: Tier) -> Vec<ClassPlan> {
     };
     vec![
         ClassPlan { class: "prog", cases: 24_000 * k, min_len: 24, max_len: 420 },
-        ClassPlan { class: "claims", cases: 6_000 * k, min_len: 24, max_len: 300 },
+        ClassPlan { class: "claims", cases: 5_000 * k, min_len: 24, max_len: 300 },
+        ClassPlan { class: "late-abort", cases: 3_000 * k, min_len: 24, max_len: 300 },
+        ClassPlan { class: "listener-after-destroy", cases: 2_000 * k, min_len: 24, max_len: 300 },
     ]
 }
 
@@ -49,8 +50,20 @@ pub fn exclude_f2() -> bool {
     std::env::var("VAPI_EXCLUDE_F2").map(|v| v == "1").unwrap_or(false)
 }
 
+pub fn exclude_f5() -> bool {
+    std::env::var("VAPI_EXCLUDE_F5").map(|v| v == "1").unwrap_or(false)
+}
+
+pub fn exclude_f6() -> bool {
+    std::env::var("VAPI_EXCLUDE_F6").map(|v| v == "1").unwrap_or(false)
+}
+
 fn decode(class: &str, tape: &[u8]) -> Program {
-    let allow = class == "claims" && !exclude_f2();
+    let allow = Allow {
+        refused_claims: class == "claims" && !exclude_f2(),
+        late_abort: class == "late-abort" && !exclude_f5(),
+        listener_after_destroy: class == "listener-after-destroy" && !exclude_f6(),
+    };
     decode_program(tape, allow, 48)
 }
 
@@ -94,30 +107,41 @@ pub fn run(p: &Program) -> Outcome {
 }
 
 fn run_inner(p: &Program) -> Result<Outcome, Outcome> {
-    let mut rig = Rig::connect(p.sched_seed, p.policy, &p.clients, p.allow_refused_claims)?;
+    let mut rig = Rig::connect(
+        p.sched_seed,
+        p.policy,
+        &p.clients,
+        Allow { refused_claims: p.allow_refused_claims, late_abort: p.allow_late_abort, listener_after_destroy: p.allow_listener_after_destroy },
+    )?;
     let mut idle_slot = None;
     if p.idle_early {
         let mut bh = rig.net.broker.clone();
-        let (_, s) = rig.net.sim.spawn_out("driver:shutdown_idle", async move { bh.shutdown_idle().await });
+        let (_, s) = rig.net.sim.spawn_out("driver:shutdown_idle", counted(async move { bh.shutdown_idle().await }));
         idle_slot = Some(s);
     }
     rig.spawn_tasks(&p.tasks);
 
     // phases: run to quiescence, check, open the gate for tasks waiting at a barrier
     let mut phases = 0;
-    loop {
-        rig.settle("program")?;
-        rig.check_runs(false)?;
-        rig.check_no_request_pending()?;
-        rig.world.board.borrow_mut().bus_mutators.clear();
-        if rig.tasks_at_gate() == 0 {
-            break;
+    for round in 0..2 {
+        loop {
+            rig.settle("program")?;
+            rig.check_runs(false)?;
+            rig.check_no_request_pending()?;
+            rig.world.board.borrow_mut().bus_mutators.clear();
+            if rig.tasks_at_gate() == 0 {
+                break;
+            }
+            phases += 1;
+            if phases > 200 {
+                return Err(fail("harness:too-many-phases", rig.detail("more than 200 phases")));
+            }
+            rig.world.gate.open_next();
         }
-        phases += 1;
-        if phases > 200 {
-            return Err(fail("harness:too-many-phases", rig.detail("more than 200 phases")));
+        if round == 0 {
+            // nobody produces anything new: tasks still waiting for an operand give up
+            rig.world.cancel_all_waits();
         }
-        rig.world.gate.open_next();
     }
 
     // shutdown of every client
@@ -135,7 +159,17 @@ fn run_inner(p: &Program) -> Result<Outcome, Outcome> {
                     h.shutdown();
                 }
             }
-            FinalMode::DropAll => cc.drop_all(),
+            FinalMode::DropAll => {
+                // F5 exclusion: let the client process the aborts before it loses its last handle
+                if !p.allow_late_abort && cc.drop_replies() > 0 {
+                    rig.world.count("excluded:f5");
+                    rig.settle("shutdown")?;
+                }
+                if !cc.stash.borrow().is_empty() {
+                    rig.world.count("late-abort");
+                }
+                cc.drop_all()
+            }
         }
         rig.world.log(format!("driver: stop c{} by {:?}", i, c.final_mode));
         // clients are stopped one after the other on odd policies, all at once otherwise
@@ -172,7 +206,7 @@ fn run_inner(p: &Program) -> Result<Outcome, Outcome> {
     }
     if idle_slot.is_none() {
         let mut bh = rig.net.broker.clone();
-        let (_, s) = rig.net.sim.spawn_out("driver:shutdown_idle", async move { bh.shutdown_idle().await });
+        let (_, s) = rig.net.sim.spawn_out("driver:shutdown_idle", counted(async move { bh.shutdown_idle().await }));
         idle_slot = Some(s);
     }
     rig.settle("idle-shutdown")?;
@@ -212,6 +246,10 @@ fn run_inner(p: &Program) -> Result<Outcome, Outcome> {
         ("two-claimants", "two-claimants"),
         ("claim-refused", "claim-refused"),
         ("excluded:f2", "excluded:f2"),
+        ("excluded:f5", "excluded:f5"),
+        ("excluded:f6", "excluded:f6"),
+        ("listener-polled-after-destroy", "listener-polled-after-destroy"),
+        ("late-abort", "late-abort"),
         ("call:answered", "call:ok"),
         ("call:legitimately-pending", "call:legitimately-pending"),
         ("call:aborted-by-drop", "call:aborted-by-drop"),
